@@ -939,7 +939,8 @@ class vPeriod(TimeBase):
         # set the timezone identifier
         # does not support different timezones for start and end
         tzid = tzid_from_dt(start)
-        if tzid:
+        if tzid and tzid != 'UTC':
+            # UTC values are written with the Z suffix and carry no TZID
             self.params['TZID'] = tzid
 
         self.start = start
